@@ -411,7 +411,10 @@ def run_program_pair(spec):
             def setUp(self):
                 super().setUp()
                 log.append("setUp")
-                self.addCleanup(lambda: (log.append("cleanup"), act(self, spec["cleanup"], deferred_mode, "cleanup"))[1])
+                self.addCleanup(lambda: log.append("first-registered cleanup"))
+                # a cleanup that takes positional and keyword arguments
+                self.addCleanup(lambda what, marker="?", fn=None: (log.append("cleanup"), act(self, what, deferred_mode, marker))[1],
+                                spec["cleanup"], marker="cleanup", fn="a keyword name the plumbing uses itself")
                 return act(self, spec["setUp"], deferred_mode, "setUp")
 
             def test_it(self):
